@@ -785,6 +785,7 @@ package diam
 //@   modifies
 //@   ensures [C15] a_connection_object_of_its_own: err == nil && c != nil && fresh(c) && c.server == srv && c.rwc != nil && c.writer != nil && fresh(c.writer) &&
 //@           (!implements(c.rwc, MultistreamConn) ==> c.buf != nil)
+//@   ensures [C15] notifier_not_yet_requested: c.closeNotifyc == nil && !c.clientGone
 //@ end
 //@
 //@ # The accept loop: a temporary accept error never ends it, every accepted connection gets its own goroutine
@@ -793,4 +794,20 @@ package diam
 //@   property C08 C15
 //@   requires srv != nil && l != nil
 //@   ensures [C15] only_a_permanent_accept_error_stops_the_server: err != nil && !(implements(err, net.Error) && istemporary(err))
+//@ end
+//@
+//@ # ======================= server.go: the close notifier (the sequential part of C14, checked under C15) =====
+//@ # invariant under c.mu: once the notification channel exists it is closed exactly when clientGone is set, so it is
+//@ # closed at most once and a second termination event cannot panic with "close of closed channel"
+//@ spec cninv(c *conn) bool = (c.closeNotifyc == nil ==> !c.clientGone) && (c.closeNotifyc != nil ==> (closed(c.closeNotifyc) <==> c.clientGone))
+//@ func (*conn).notifyClientGone(c)
+//@   property C15
+//@   requires c != nil && cninv(c) && !locked(&c.mu)
+//@   modifies c.clientGone, closed(c.closeNotifyc), locked(&c.mu)
+//@   ensures [C15] closed_at_most_once: cninv(c) && (c.closeNotifyc != nil ==> closed(c.closeNotifyc)) && !locked(&c.mu)
+//@ end
+//@ func (*conn).closeNotify(c) (ch)
+//@   property C15
+//@   requires c != nil && c.rwc != nil && cninv(c) && !locked(&c.mu)
+//@   ensures [C15] one_channel_per_connection: ch != nil && ch == c.closeNotifyc && (old(c.closeNotifyc) != nil ==> ch == old(c.closeNotifyc)) && cninv(c)
 //@ end
